@@ -13,11 +13,11 @@ EXTENDS Naturals, Sequences, FiniteSets, TLC
 
 CONSTANT Tier
 
-Durations == {"1ms", "1500ms", "90s", "3days", "400days", "1h1m1s"}
+Durations == {"0s", "1ms", "1500ms", "90s", "3days", "400days", "1h1m1s"}       \* (0s: the boundary; for total_timeout it means unlimited)
 Bools     == {"true", "false"}
 Streams   == {"stdout", "stderr", "combined"}
 Codes     == {"0", "80", "255"}
-Waits     == {"dur", "dur_path", "dur_path_space", "dur_path_special"}
+Waits     == {"dur", "dur_path", "dur_path_space", "dur_path_special", "dur_path_edge_blank", "dur_path_blank", "dur_zero"}
 EnvVals   == {"plain", "empty", "dquote", "squote", "backslash", "colon_space", "brace", "comma", "hash", "lead_space",
               "trail_space", "utf8", "looks_bool", "looks_num", "looks_null", "percent_at", "combining"}
 ValuesOf(k) == CASE k = "timeout" -> Durations [] k \in {"keep_crlf", "detached", "strip_ansi_escaping"} -> Bools
